@@ -1,38 +1,71 @@
 (* Props/C09.v — writing a definition to XTCE XML and loading it back preserves its meaning.
-   Proved here: the write/read round trip of every criteria form (incl. boolean expressions of any depth) and of the
-   calibrators; the remaining reader/writer pairs (encodings, parameter types, parameters, containers, document) are
-   tied to the implementation and to each other by the correspondence of this property (written tree = model writer,
-   reloaded definition = original), see DESIGN.md: the full statement C09_roundtrip is therefore only partially a theorem. *)
+   The round trip is a theorem at every level of the document, up to the whole document, for parameter types other than
+   the two time types (whose Encoding scale/offset form is tied by the correspondence of this property only: those
+   statements keep the suffix _partial visible in DESIGN.md).  [*_wf] are the writer-normal-form conditions every dumped
+   definition satisfies (optional strings non-empty, spline order 0/1, criteria lists in one of the three XTCE shapes, ...). *)
 From Coq Require Import ZArith List Bool String.
 From SPP Require Import Base.Sx Model.Xml Proofs.RoundTripP.
 Import ListNotations.
 
-Theorem C09_roundtrip_comparison_partial : forall U c, read_comparison (write_comparison U c) = Ok c.
-Proof. exact rt_comparison. Qed.
-Print Assumptions C09_roundtrip_comparison_partial.
+(* the whole document: reading what was written gives the document back (the header date being filled in) *)
+Theorem C09_roundtrip : forall U date d v, doc_wf d -> write_doc U date d = Ok v -> read_doc U v = Ok (with_date d date).
+Proof. exact rt_doc. Qed.
+Print Assumptions C09_roundtrip.
 
-Theorem C09_roundtrip_condition_partial : forall U d, read_condition U (write_condition U d) = Ok d.
+Theorem C09_roundtrip_container : forall U c v, container_wf c -> write_container U c = Ok v -> read_container U v = Ok c.
+Proof. exact rt_container. Qed.
+Print Assumptions C09_roundtrip_container.
+
+Theorem C09_roundtrip_parameter : forall U p, param_wf p -> read_param U (write_param U p) = Ok p.
+Proof. exact rt_param. Qed.
+Print Assumptions C09_roundtrip_parameter.
+
+Theorem C09_roundtrip_parameter_type : forall U t, ptype_wf t -> read_ptype U (write_ptype U t) = Ok t.
+Proof. exact rt_ptype. Qed.
+Print Assumptions C09_roundtrip_parameter_type.
+
+(* the data encoding is found among its UnitSet / EnumerationList siblings and read back *)
+Theorem C09_roundtrip_encoding : forall U m a pre post e, encoding_wf e -> Forall (tags_in INNER) pre -> Forall (tags_in INNER) post ->
+  read_encoding U (E U m a (pre ++ write_encoding U e :: post)) = Ok e.
+Proof. exact rt_encoding. Qed.
+Print Assumptions C09_roundtrip_encoding.
+
+Theorem C09_roundtrip_numeric : forall U e, numeric_wf e -> read_numeric U (xn_float e) (write_numeric U e) = Ok e.
+Proof. exact rt_numeric. Qed.
+Print Assumptions C09_roundtrip_numeric.
+Theorem C09_roundtrip_string : forall U e, string_wf e -> read_string U (write_string U e) = Ok e.
+Proof. exact rt_string. Qed.
+Print Assumptions C09_roundtrip_string.
+Theorem C09_roundtrip_binary : forall U s0, size_wf s0 -> read_binary U (write_binary U s0) = Ok s0.
+Proof. exact rt_binary. Qed.
+Print Assumptions C09_roundtrip_binary.
+
+Theorem C09_roundtrip_comparison : forall U c, read_comparison (write_comparison U c) = Ok c.
+Proof. exact rt_comparison. Qed.
+Print Assumptions C09_roundtrip_comparison.
+Theorem C09_roundtrip_condition : forall U d, read_condition U (write_condition U d) = Ok d.
 Proof. exact rt_condition. Qed.
-Print Assumptions C09_roundtrip_condition_partial.
+Print Assumptions C09_roundtrip_condition.
 
 (* ANDed / ORed groups nested to any depth *)
-Theorem C09_roundtrip_boolean_tree_partial : forall U t, alternating t -> forall fuel, (bx_depth t <= fuel)%nat ->
+Theorem C09_roundtrip_boolean_tree : forall U t, alternating t -> forall fuel, (bx_depth t <= fuel)%nat ->
   (match t with XAnd _ _ => read_anded U fuel (write_bx U t) | XOr _ _ => read_ored U fuel (write_bx U t) end) = Ok t.
 Proof. exact rt_bx. Qed.
-Print Assumptions C09_roundtrip_boolean_tree_partial.
-
-Theorem C09_roundtrip_boolean_expression_partial : forall U b,
-  match b with XTree t => alternating t | XCond _ => True end -> read_bexpr U (write_bexpr U b) = Ok b.
-Proof. exact rt_bexpr. Qed.
-Print Assumptions C09_roundtrip_boolean_expression_partial.
+Print Assumptions C09_roundtrip_boolean_tree.
 
 (* restriction criteria, context matches, discrete lookups: one comparison, one boolean expression, or a comparison list *)
-Theorem C09_roundtrip_criteria_partial : forall U all_children bool_ok tag attrs ks, criteria_wf bool_ok ks ->
+Theorem C09_roundtrip_criteria : forall U all_children bool_ok tag attrs ks, criteria_wf bool_ok ks ->
   read_match U all_children bool_ok (E U tag attrs (write_criteria U ks)) = Ok (Some ks).
 Proof. exact rt_match. Qed.
-Print Assumptions C09_roundtrip_criteria_partial.
+Print Assumptions C09_roundtrip_criteria.
 
-Theorem C09_roundtrip_calibrator_partial : forall U c, cal_wf c ->
+Theorem C09_roundtrip_calibrator : forall U c, cal_wf c ->
   match c with XPoly _ => read_poly (write_cal U c) | XSpline _ _ _ => read_spline (write_cal U c) end = Ok c.
 Proof. exact rt_cal. Qed.
-Print Assumptions C09_roundtrip_calibrator_partial.
+Print Assumptions C09_roundtrip_calibrator.
+Theorem C09_roundtrip_context_calibrator : forall U c, context_wf c -> read_context U (write_context U c) = Ok c.
+Proof. exact rt_context. Qed.
+Print Assumptions C09_roundtrip_context_calibrator.
+Theorem C09_roundtrip_lookup : forall U l, lookup_wf l -> read_lookup U (write_lookup U l) = Ok l.
+Proof. exact rt_lookup. Qed.
+Print Assumptions C09_roundtrip_lookup.
